@@ -4,6 +4,7 @@ import os, sys, json, time, shutil, subprocess, hashlib, atexit, random, tempfil
 
 VERIF = os.path.dirname(os.path.dirname(os.path.abspath(__file__)))
 REPO = os.environ.get("VERIF_REPO", "/repo")
+OUT = os.environ.get("VERIF_OUT", VERIF)   # where evidence/ and replays/ are written (mutation runs redirect it)
 NCPU = int(os.environ.get("VERIF_JOBS", str(os.cpu_count() or 4)))
 
 _scratch_root = None
@@ -282,14 +283,14 @@ class Ctx:
             "coverage": cov, "assumptions": self.assumptions,
             "wall_s": round(time.time() - self.t0, 2), "violations": nviol,
         }
-        os.makedirs(os.path.join(VERIF, "evidence"), exist_ok=True)
-        p = os.path.join(VERIF, "evidence", self.id + ".json")
+        os.makedirs(os.path.join(OUT, "evidence"), exist_ok=True)
+        p = os.path.join(OUT, "evidence", self.id + ".json")
         with open(p + ".tmp", "w") as f:
             json.dump(ev, f, indent=1)
         os.replace(p + ".tmp", p)
 
     def save_replay(self, scenario, kind="json"):
-        d = os.path.join(VERIF, "replays", self.id)
+        d = os.path.join(OUT, "replays", self.id)
         os.makedirs(d, exist_ok=True)
         if isinstance(scenario, bytes):
             p = os.path.join(d, hashlib.sha1(scenario).hexdigest()[:16] + ".bin")
